@@ -217,7 +217,7 @@ def run(F, rep, tier, allfacts):
                     "(result consumed by `?`) nor the current / input / created contract" % (what, d if len(d) < 200 else d[:200] + "..."))
         else:
             rep.ok("DOM-inputs-check", key, cls)
-    rep.floor("DOM-inputs-check", "classified access sites", len([k for k, v in classified.items() if v]), 25)
+    rep.floor("DOM-inputs-check", "classified access sites", len([k for k, v in classified.items() if v]), 18)
     rep.sample({"sample_sites": dict(list(classified.items())[:14])})
     # CURRENT-field: ctx structs whose current_contract field must come from current_contract()
     for n, f in cg.fns.items():
@@ -257,7 +257,7 @@ def run(F, rep, tier, allfacts):
         nsites += 1
         rep.check(d in ("arg:self.input_contracts",) or d.endswith(".input_contracts"), "TAB-verifier", "site-passes-input_contracts:" + short(n),
                   "%s:%s" % (f["file"], line), "check_contract_in_inputs must be given the interpreter's input_contracts set; found %s" % d)
-    rep.floor("TAB-verifier", "check_contract_in_inputs call sites", nsites, 7)
+    rep.floor("TAB-verifier", "check_contract_in_inputs call sites", nsites, 5)
     # ctx.input_contracts fields must come from &self.input_contracts
     for n, f in cg.fns.items():
         if not n.startswith("fuel_vm::interpreter::"):
